@@ -67,6 +67,9 @@ STRUCT = dict(
                  magmom=[[0, 0, 1.]], centres=[[0, 0, 0]] * 2),
     diamond_ss=dict(lattice=np.array([[0, .5, .5], [.5, 0, .5], [.5, .5, 0]]), positions=[[0, 0, 0], [.25, .25, .25]], names=['C', 'C'], proj=['C:s'], nw=2, iR=star(1),
                     soc=False, magmom=None, centres=[[0, 0, 0], [.25, .25, .25]]),
+    # three atoms with one label on two Wyckoff orbits, listed interleaved: symmetrize() has to regroup the Wannier functions and, with reorder_back=True, to restore the order
+    tet_3x=dict(lattice=np.diag([1., 1., 1.3]), positions=[[.5, 0, 0], [0, 0, 0], [0, .5, 0]], names=['X', 'X', 'X'], proj=['X:s'], nw=3, iR=star(1), soc=False, magmom=None,
+                centres=[[.5, 0, 0], [0, 0, 0], [0, .5, 0]], reorder_back=True),
     zb_ss=dict(lattice=np.array([[0, .5, .5], [.5, 0, .5], [.5, .5, 0]]), positions=[[0, 0, 0], [.25, .25, .25]], names=['Ga', 'As'], proj=['Ga:s', 'As:s'], nw=2, iR=star(1),
                soc=False, magmom=None, centres=[[0, 0, 0], [.25, .25, .25]]),
 )
@@ -101,7 +104,13 @@ def do_sym(s, st):
     with contextlib.redirect_stdout(io.StringIO()), warnings.catch_warnings():
         warnings.simplefilter("ignore")
         s._symmetrizer = s.symmetrize(proj=list(st["proj"]), positions=np.array(st["positions"], dtype=float), atom_name=list(st["names"]), soc=st["soc"],
-                                      magmom=None if st["magmom"] is None else np.array(st["magmom"]), silent=True)
+                                      magmom=None if st["magmom"] is None else np.array(st["magmom"]), silent=True,
+                                      **(dict(reorder_back=True) if st.get("reorder_back") else {}))
+        if s._symmetrizer is None:      # symmetrize(reorder_back=True) returns None after a non-trivial regrouping: take the space group from a run without it
+            st0 = dict(st, reorder_back=False)
+            nR = len(st["iR"])
+            z = {"Ham": np.zeros((nR, st["nw"], st["nw"]), dtype=complex)}
+            s._symmetrizer = do_sym(build(st0, ["Ham"], z), st0)._symmetrizer
     return s
 
 
@@ -153,6 +162,14 @@ def case_struct(rec, name, mats, nk, npow):
             Xd = np.conjugate(np.swapaxes(X[minus], 1, 2))
             rec.close(f"{k_}: X(-R) == X(R)^dagger after symmetrisation", Xd, X, 1e-12, bound=1.0, key=f"symmetrised {k_} is not Hermitian in real space")
         rec.concrete("Wannier centres map onto each other under every space-group operation (mod lattice)", centres_mapped(s), key=f"{name}: symmetrised Wannier centres are not mapped onto each other")
+        # the shifts the Fourier transform uses are the Wannier centres, in the same order (System_R.reorder has to permute matrices, centres and shifts together)
+        sh, wc = np.asarray(s.rvec.shifts_left_red, dtype=float), np.asarray(s.wannier_centers_red, dtype=float)
+        rec.concrete("R-vector shifts == Wannier centres after symmetrisation", sh.shape == wc.shape and bool(np.max(np.abs(sh - wc)) < 1e-8),
+                     key=f"{name}: R-vector shifts differ from the Wannier centres after symmetrisation")
+        if st.get("reorder_back"):
+            d_ = wc - np.array(st["positions"], dtype=float)
+            rec.concrete("reorder_back restores the order of the Wannier functions", bool(np.max(np.abs(d_ - np.round(d_))) < 1e-8),
+                         key=f"{name}: reorder_back does not restore the order of the Wannier functions")
         # spectrum at g.k equals spectrum at k : power sums of H(k)
         H = s.get_R_mat("Ham")
         for k in KPTS[:nk]:
@@ -291,6 +308,7 @@ def cases(tier, seed):
            Case("tet_spz Ham+AA", case_struct, dict(name="tet_spz", mats=["Ham", "AA"], nk=1, npow=1), timeout=1500),
            Case("cscl_ss Ham subgroup=E (use_symmetries_index)", case_subgroup, dict(name="cscl_ss", want="E"), timeout=1500),
            Case("tet_spz Ham subgroup of index 2 (use_symmetries_index)", case_subgroup, dict(name="tet_spz", want="half"), timeout=1500),
+           Case("tet_3x Ham reorder_back=True (interleaved Wyckoff orbits of one species)", case_struct, dict(name="tet_3x", mats=["Ham"], nk=1, npow=2), timeout=1500),
            Case("diamond_ss Ham (two equivalent sites in one block)", case_struct, dict(name="diamond_ss", mats=["Ham"], nk=2, npow=2), timeout=1500)]
     if not q:
         out += [Case("zb_ss Ham", case_struct, dict(name="zb_ss", mats=["Ham"], nk=2, npow=2), timeout=3600),
@@ -298,6 +316,7 @@ def cases(tier, seed):
                 Case("sc_sp Ham+AA", case_struct, dict(name="sc_sp", mats=["Ham", "AA"], nk=1, npow=1), timeout=3600),
                 Case("cscl_ss Ham+AA", case_struct, dict(name="cscl_ss", mats=["Ham", "AA"], nk=2, npow=2), timeout=3600),
                 Case("diamond_ss Ham+AA", case_struct, dict(name="diamond_ss", mats=["Ham", "AA"], nk=1, npow=1), timeout=3600),
+                Case("tet_3x Ham+AA reorder_back=True", case_struct, dict(name="tet_3x", mats=["Ham", "AA"], nk=1, npow=1), timeout=3600),
                 Case("zb_ss Ham+AA", case_struct, dict(name="zb_ss", mats=["Ham", "AA"], nk=1, npow=1), timeout=3600),
                 Case("tet_spz Ham nk=3 npow=3", case_struct, dict(name="tet_spz", mats=["Ham"], nk=3, npow=3), timeout=3600),
                 Case("cscl_ss Ham nk=3 npow=2", case_struct, dict(name="cscl_ss", mats=["Ham"], nk=3, npow=2), timeout=3600),
@@ -358,6 +377,11 @@ def replay(rec):
                     errs[f"{nm} {key_}"] = max(errs.get(f"{nm} {key_}", 0), np.abs(ag - want).max())
     errs["spectrum"] = e
     errs["centres not mapped"] = 0.0 if centres_mapped(s) else 1.0
+    sh, wc = np.asarray(s.rvec.shifts_left_red, dtype=float), np.asarray(s.wannier_centers_red, dtype=float)
+    errs["shifts != centres"] = float(np.max(np.abs(sh - wc))) if sh.shape == wc.shape else 1.0
+    if st.get("reorder_back"):
+        d_ = wc - np.array(st["positions"], dtype=float)
+        errs["order not restored"] = float(np.max(np.abs(d_ - np.round(d_))))
     before = {k_: s.get_R_mat(k_).copy() for k_ in w["mats"]}
     iR1 = [tuple(r) for r in iR.tolist()]
     s2 = do_sym(s, st)
